@@ -61,6 +61,7 @@ AsymBase == [
   rsa2047a |-> [kty |-> "RSA", bits |-> 2047, crv |-> NONE],
   rsa2048a |-> [kty |-> "RSA", bits |-> 2048, crv |-> NONE],
   rsa2048b |-> [kty |-> "RSA", bits |-> 2048, crv |-> NONE],
+  rsa2052a |-> [kty |-> "RSA", bits |-> 2052, crv |-> NONE],
   rsa2056a |-> [kty |-> "RSA", bits |-> 2056, crv |-> NONE],
   rsa3072a |-> [kty |-> "RSA", bits |-> 3072, crv |-> NONE],
   rsa3072b |-> [kty |-> "RSA", bits |-> 3072, crv |-> NONE],
